@@ -231,6 +231,11 @@ pub fn check_rules(model: &mut Model, r: &mut Report, modelled: &[String], progr
             let a = model.ask(&format!("c01.ndguard {}", sexp0));
             r.hist("remove_nil_declaration: inside H of the whole-rule theorem", &a);
         }
+        if fired && matches!(*rule, "remove_unused_while" | "remove_unused_if_branch" | "convert_index_to_field" | "compute_expression") {
+            // hypothesis H of the whole-rule theorems for the real evaluator (`…_upto_C08`, `…_upto_alloc_C08`)
+            let a = model.ask(&format!("c01.c08guard {} {}", hex(rule.as_bytes()), sexp0));
+            r.hist(&format!("{}: inside H of the whole-rule theorem (real evaluator)", rule), &a);
+        }
         if fired && *rule == "remove_unused_variable" {
             // hypothesis H of rule_refines_remove_unused_variable_partial (guarded rule == rule), for the coverage record
             let a = model.ask(&format!("c01.uvguard {}", sexp0));
